@@ -88,6 +88,7 @@ func (or *oracle) checkSeq(items []item, pre, post *snap, hist, step int) {
 			if len(ob.logs) != 0 {
 				or.hit("C10/erc20/failed-call-changed-state/"+kindName[o.kind], "a failing call left logs", o, hist, step)
 			}
+			or.mustSucceed(o, cur, hist, step)
 			continue // a failing call changes nothing: cur stays
 		}
 		or.applyOk(o, ob, cur, hist, step)
@@ -235,6 +236,41 @@ func (or *oracle) applyOk(o *opx, ob obsx, cur *snap, hist, step int) {
 				cur.allow[fi][ci] = new(big.Int).Sub(preAllow, amt)
 			}
 		}
+	}
+}
+
+// mustSucceed: an exact ERC-20 view does what ERC-20 says whenever the ledger allows it: a well-formed transfer /
+// transferFrom / burn / burnFrom of an amount the holder can spend (bank balance minus locked vesting coins), by the
+// holder or by a spender whose stored allowance covers it, and a well-formed approve, may not fail.
+func (or *oracle) mustSucceed(o *opx, cur *snap, hist, step int) {
+	w := or.w
+	if len(o.extra) != 0 || o.caller == (common.Address{}) {
+		return
+	}
+	switch o.kind {
+	case kApprove:
+		if lowAddr(o.w[0]) != (common.Address{}) {
+			or.hit("C10/erc20/valid-call-failed/approve", "approve of a non-zero spender by a non-zero owner failed", o, hist, step)
+		}
+	case kTransfer, kTransferFrom, kBurn, kBurnFrom:
+		from, to, amt, _ := o.moves()
+		burn := o.kind == kBurn || o.kind == kBurnFrom
+		fi, ci := w.idx(from), w.idx(o.caller)
+		if from == (common.Address{}) || (!burn && to == (common.Address{})) || fi < 0 || ci < 0 {
+			return
+		}
+		d := w.tok[o.tok].denomID
+		spendable := new(big.Int).Sub(cur.bal[fi][d], w.locked[lkey(from, d)])
+		if spendable.Cmp(amt) < 0 {
+			return
+		}
+		if from != o.caller {
+			if a := cur.allow[fi][ci]; a.Cmp(max256) != 0 && a.Cmp(amt) < 0 {
+				return
+			}
+		}
+		or.hit("C10/erc20/valid-call-failed/"+kindName[o.kind],
+			fmt.Sprintf("%s of %s failed although the holder can spend %s and the caller is the holder or holds allowance %s", kindName[o.kind], amt, spendable, cur.allow[fi][ci]), o, hist, step)
 	}
 }
 
